@@ -308,18 +308,53 @@ def suite_field(ctx):
                 except Exception as e:
                     bad.append((type(src).__name__, freq, str(e)[:60]))
                 ctx.count(key=('field', type(src).__name__, freq, str(st0)))
-    # tuple / list / ndarray input forms
-    for form in [(0.5, 0.25, -1, 30, 10), [-1, 0.5, -1, 1, 1.5, 0.5],
-                 np.array([[-1, 0, 0], [0, 1, 0.5], [1, 1, -1]])]:
-        with warnings.catch_warnings():
-            warnings.simplefilter('ignore')
-            a = fields.get_source_field(grid, form, frequency=1.0, strength=2.0)
-            arr = np.asarray(form)
-            cls = (emg3d.TxElectricWire if arr.size > 6
-                   else emg3d.TxElectricDipole)
-            b = fields.get_source_field(grid, cls(form, strength=2.0), 1.0)
-        if not np.array_equal(a.field, b.field):
-            bad.append(('input form', str(form)[:40]))
+    # tuple / list / ndarray input forms, electric and magnetic, as documented:
+    # a dipole (5 or 6 numbers, or two electrodes) goes to TxElectricDipole or,
+    # with electric=False, TxMagneticDipole; more than two points to a wire
+    forms = [(0.5, 0.25, -1, 30, 10), [-1, 0.5, -1, 1, 1.5, 0.5],
+             np.array([-1, 0.5, -1, 1, 1.5, 0.5]),
+             np.array([[-1., -1., 0.5], [0.5, 1.5, 1.]]),
+             [[-1., -1., 0.5], [0.5, 1.5, 1.]],
+             ((-1., -1., 0.5), (0.5, 1.5, 1.)),
+             np.array([[-1, 0, 0], [0, 1, 0.5], [1, 1, -1]]),
+             [[-1, 0, 0], [0, 1, 0.5], [1, 1, -1], [1.5, 0, 0]]]
+    for form in forms:
+        arr = np.asarray(form)
+        for electric in (True, False):
+            for freq in (1.0, -2.0, None):
+                kw = {'strength': 2.0}
+                if arr.size == 5:
+                    kw['length'] = 1.5
+                if arr.size > 6:
+                    cls = emg3d.TxElectricWire
+                elif electric:
+                    cls = emg3d.TxElectricDipole
+                else:
+                    cls = emg3d.TxMagneticDipole
+                try:
+                    with warnings.catch_warnings():
+                        warnings.simplefilter('ignore')
+                        a = fields.get_source_field(
+                            grid, form, frequency=freq, electric=electric,
+                            **kw)
+                        b = fields.get_source_field(grid, cls(form, **kw),
+                                                    freq)
+                except Exception as e:      # noqa
+                    bad.append(('input form raised', str(form)[:40],
+                                str(e)[:60]))
+                    continue
+                if not np.array_equal(a.field, b.field):
+                    bad.append(('input form', str(form)[:40], electric, freq))
+                    ctx.violation(
+                        'raw-source-format-dispatch',
+                        f'get_source_field with the raw source '
+                        f'{np.asarray(form).tolist()} (electric={electric}, '
+                        f'frequency={freq}) differs from the field of '
+                        f'{cls.__name__} built from the same input',
+                        {'form': np.asarray(form).tolist(),
+                         'electric': electric, 'frequency': freq})
+                ctx.count(key=('form', str(arr.shape), type(form).__name__,
+                               electric, freq))
     ctx.oblige('monitor: get_source_field = vector x strength x (-s mu_0) for '
                'all source classes / input forms / f>0, f<0, None, repeated '
                'calls', 'monitor', not bad, str(bad[:3]))
